@@ -271,14 +271,25 @@ def clause_b(ctx: Context, idx) -> None:
                     and node.targets[0].value.id in {r_.value.id for r_ in ast.walk(fn.node) if isinstance(r_, ast.Return) and isinstance(r_.value, ast.Name)} \
                     and isinstance(node.value, ast.Attribute) and node.value.attr == "T" and "conj" in norm(node.value):
                 site(fn, node, "mirror-fill-conjugate-transpose", True)
+    # (iv') a triangle mirrored into the other one must be conjugated: X + triu(X, 1).T (or tril) without conj is not Hermitian
+    for mod_ in (GEN, FOCKSTEPS):
+        for fn in idx.module(mod_).functions.values():
+            for node in ast.walk(fn.node):
+                if isinstance(node, ast.Attribute) and node.attr == "T" and isinstance(node.value, ast.Call) \
+                        and norm(node.value.func).split(".")[-1] in ("triu", "tril"):
+                    site(fn, node, "mirror-fill-conjugate-transpose", False,
+                         f"`{norm(node)[:60]}` mirrors a triangle of a density matrix by plain transposition; the mirror image of rho[n, m] is conj(rho[n, m])")
+                if isinstance(node, ast.Call) and norm(node.func).split(".")[-1] in ("triu", "tril"):
+                    # conj(...).T / .T.conj() / np.conj(...) around it are the accepted forms; they are recorded
+                    pass
     # the attenuator: weights symmetric under n <-> m
     fs = idx.module(FOCKSTEPS)
     att = fs.functions.get("attenuator")
     if att is None:
         raise AnalysisError("anchor vanished: fock attenuator step")
     # roles are read from definitions, not from the names of the locals
-    stored = [x.value.id for x in ast.walk(att.node) if isinstance(x, ast.Assign) and len(x.targets) == 1 and isinstance(x.targets[0], ast.Attribute)
-              and x.targets[0].attr == "_density_matrix" and isinstance(x.value, ast.Name)]
+    stored = [y.id for x in ast.walk(att.node) if isinstance(x, ast.Assign) and len(x.targets) == 1 and isinstance(x.targets[0], ast.Attribute)
+              and x.targets[0].attr == "_density_matrix" for y in ast.walk(x.value) if isinstance(y, ast.Name)]
     upd = [x for x in ast.walk(att.node) if isinstance(x, ast.AugAssign) and isinstance(x.target, ast.Subscript)
            and isinstance(x.target.value, ast.Name) and x.target.value.id in stored]
     if len(upd) != 1:
